@@ -71,6 +71,9 @@ func (c projCfg) build() proj {
 	panic("unknown projection " + c.Name)
 }
 
+// c19Shift: the second graticule is shifted by a value with no short decimal expansion
+const c19Shift = 0.3712345678912345
+
 func rad(d float64) float64 { return d * math.Pi / 180 }
 
 // central angle (radians) between two lon/lat points, haversine form
@@ -281,7 +284,8 @@ func c19Configs(thorough bool) []projCfg {
 
 func c19Main(r *engine.Run) {
 	defer c19Centres(r)
-	r.Rule = "9 projections × configurations (centres/origins on a 30° lattice of the sphere incl. poles and ±180; standard parallel pairs over {±10,±30,±60}² in both orders minus the singular ones; radii 1 and WGS84 mean; zoom 0..30) × points on a graticule (step below) and on a second graticule shifted by 0.37° (enumeration replaces the quantifier's random points), clipped to each implementation's one-to-one domain, plus the centre/origin and points on the standard parallels: Forward finite, Reverse∘Forward within 1e-9°, local character by central differences (equal area, conformality, equidistance, true scale on standard parallels, Web Mercator square and orientation). non-trivial = (configuration, point) pairs with a character check. The check covers lattice nodes only; nothing is claimed between nodes"
+	defer c19Sequences(r)
+	r.Rule = "9 projections × configurations (centres/origins on a 30° lattice of the sphere incl. poles and ±180; standard parallel pairs over {±10,±30,±60}² in both orders minus the singular ones; radii 1 and WGS84 mean; zoom 0..30) × points on a graticule (step below) and on a second graticule shifted by 0.3712345678912345° (enumeration replaces the quantifier's random points), clipped to each implementation's one-to-one domain, plus the centre/origin and points on the standard parallels: Forward finite, Reverse∘Forward within 1e-9°, local character by central differences; projection objects as state machines (every setter/use sequence up to a depth against a fresh object with the same configuration) (equal area, conformality, equidistance, true scale on standard parallels, Web Mercator square and orientation). non-trivial = (configuration, point) pairs with a character check. The check covers lattice nodes only; nothing is claimed between nodes"
 	cfgs := c19Configs(r.Thorough())
 	step := 5.0
 	if r.Thorough() {
@@ -296,7 +300,7 @@ func c19Main(r *engine.Run) {
 		if i%97 == 0 {
 			st = 1 // every 97th configuration gets the full 1° graticule
 		}
-		for _, off := range []float64{0, 0.37} {
+		for _, off := range []float64{0, c19Shift} {
 			for dl := -179.0; dl <= 179; dl += st {
 				lon := c.Center0() + dl + off
 				for lat := -85.0; lat <= 85; lat += st {
@@ -344,7 +348,7 @@ func c19Main(r *engine.Run) {
 			r.Sample("point", c19Case{c, []float64{c.Center0() + 10, 20}})
 		}
 	}) {
-		r.Bound(fmt.Sprintf("%d configurations × graticule step %v° (1° for every 97th configuration) and its 0.37° shift, clipped to the one-to-one domain; centre/origin; standard parallels", len(cfgs), step))
+		r.Bound(fmt.Sprintf("%d configurations × graticule step %v° (1° for every 97th configuration) and its 0.3712345678912345° shift, clipped to the one-to-one domain; centre/origin; standard parallels", len(cfgs), step))
 	}
 }
 
